@@ -165,7 +165,8 @@ func execC01(r *kernel.Run, s C01Spec) {
 		}
 		r.Eval(1)
 		r.Fault("tamper-field")
-		v := verifyWire(w, sess)
+		v := verifyWireTwice(w, sess)
+		checkReverify(r, "C01", id, v)
 		if v.Panic != "" {
 			r.Probe("receiver-panic(judged by C08)")
 		}
